@@ -266,29 +266,20 @@ Qed.
 
 (* ---------- panics ---------- *)
 
-Lemma slack_hook_not_panic b : slack_update_free b = true -> slack_hook b <> Panic.
+Lemma slack_hook_not_panic b : slack_hook b <> Panic.
 Proof.
-  unfold slack_update_free, slack_hook. intros Hf H.
+  unfold slack_hook. intros H.
   repeat (apply andthen_panic in H as [H|[_ H]]; [exact (fail_if_not_panic _ _ H)|]).
   destruct (ib_update b); [|discriminate]. destruct (ib_api_url b); [exact (fail_if_not_panic _ _ H)|discriminate].
 Qed.
 
-Lemma in_slack_bodies d o b :
-  o ∈ d_receivers d -> Some b ∈ ints_of "slack" (recv_of o) -> b ∈ slack_bodies d.
+Lemma receiver_hook_not_panic r : receiver_hook r <> Panic.
 Proof.
-  intros Ho Hb. unfold slack_bodies. apply elem_of_list_In, in_flat_map. exists o. split; [apply elem_of_list_In; exact Ho|].
-  apply elem_of_list_In. apply elem_of_list_omap. exists (Some b). split; [exact Hb|reflexivity].
-Qed.
-
-Lemma receiver_hook_not_panic d o r :
-  forallb slack_update_free (slack_bodies d) = true -> o ∈ d_receivers d -> o = Some r -> receiver_hook r <> Panic.
-Proof.
-  intros Hf Ho -> H. unfold receiver_hook in H.
+  intros H. unfold receiver_hook in H.
   apply andthen_panic in H as [H|[_ H]].
   - apply first_err_panic, Exists_exists in H as [x [Hx Hp]].
     apply elem_of_list_fmap in Hx as [ob [-> Hob]]. destruct ob as [b|]; [|discriminate].
-    rewrite forallb_forall in Hf. refine (slack_hook_not_panic b (Hf b _) Hp).
-    apply elem_of_list_In. exact (in_slack_bodies d (Some r) b Ho Hob).
+    exact (slack_hook_not_panic b Hp).
   - repeat (apply andthen_panic in H as [H|[_ H]]; [exact (fail_if_not_panic _ _ H)|]).
     exact (fail_if_not_panic _ _ H).
 Qed.
@@ -300,27 +291,26 @@ Proof.
   exact (fail_if_not_panic _ _ Hp).
 Qed.
 
-Lemma hooks_not_panic vl d : forallb slack_update_free (slack_bodies d) = true -> hooks vl d <> Panic.
+Lemma hooks_not_panic vl d : hooks vl d <> Panic.
 Proof.
-  intros Hf H. unfold hooks in H. apply first_err_panic, Exists_exists in H as [x [Hx Hp]].
+  intros H. unfold hooks in H. apply first_err_panic, Exists_exists in H as [x [Hx Hp]].
   apply elem_of_list_fmap in Hx as [s [-> _]]. destruct s; simpl in Hp.
   - destruct (d_route d) as [r|]; [exact (route_hook_not_panic _ _ Hp)|discriminate].
   - apply first_err_panic, Exists_exists in Hp as [x [Hx Hp]].
     apply elem_of_list_fmap in Hx as [o [-> Ho]]. destruct o as [r|]; [|discriminate].
-    exact (receiver_hook_not_panic d (Some r) r Hf Ho eq_refl Hp).
+    exact (receiver_hook_not_panic r Hp).
   - exact (interval_hooks_not_panic _ Hp).
   - exact (interval_hooks_not_panic _ Hp).
 Qed.
 
-Lemma global_checks_not_panic g : global_deref_free g = true -> global_checks g <> Panic.
+Lemma global_checks_not_panic g : global_checks g <> Panic.
 Proof.
-  unfold global_deref_free, global_checks. intros Hf H.
-  apply andb_true_iff in Hf as [_ Hf].
+  unfold global_checks. intros H.
   apply andthen_panic in H as [H|[_ H]]; [exact (fail_if_not_panic _ _ H)|].
   apply andthen_panic in H as [H|[_ H]]; [exact (fail_if_not_panic _ _ H)|].
   apply andthen_panic in H as [H|[_ H]]; [|exact (fail_if_not_panic _ _ H)].
-  destruct (pair_any (pair_at g 0) && pair_any (pair_at g 1)); [|discriminate]. simpl in Hf.
-  destruct (g_slack_api_url g), (g_slack_app_url g); simpl in Hf; try discriminate.
+  destruct (pair_any (pair_at g 0) && pair_any (pair_at g 1)); [|discriminate].
+  destruct (g_slack_api_url g), (g_slack_app_url g); try discriminate.
   exact (fail_if_not_panic _ _ H).
 Qed.
 
@@ -351,17 +341,21 @@ Qed.
 Lemma recv_leaf_not_panic names n : recv_leaf names n <> Panic.
 Proof. unfold recv_leaf. destruct (String.eqb _ _); [discriminate|apply fail_if_not_panic]. Qed.
 
-Lemma load_never_panics_deref_free vl o :
-  match o with Some d => deref_free d = true | None => True end -> load_validate vl o <> Panic.
+Lemma restore_http_nonzero g : Nat.eqb (g_http (restore_http g)) 0 = false.
+Proof. unfold restore_http. destruct (Nat.eqb (g_http g) 0) eqn:E; [reflexivity|exact E]. Qed.
+
+(* config.Load never panics: for EVERY decoded document - null items at every list position (routes at any depth,
+   receivers, integration items of all kinds, intervals), null/absent global block, null global http_config,
+   every combination of the slack settings - the outcome is Ok or Err. The dereferences that remain in the code
+   (checkReceiver / checkTimeInterval on a child route, *c.Global.HTTPConfig) are reached only after the checks
+   that exclude nil. *)
+Lemma load_never_panics vl o : load_validate vl o <> Panic.
 Proof.
-  destruct o as [d|]; simpl; [|discriminate]. intros Hf H.
-  unfold deref_free in Hf. apply andb_true_iff in Hf as [Hg Hs].
-  apply andthen_panic in H as [H|[Hh H]]; [exact (hooks_not_panic _ _ Hs H)|].
+  destruct o as [d|]; simpl; [|discriminate]. intros H.
+  apply andthen_panic in H as [H|[Hh H]]; [exact (hooks_not_panic _ _ H)|].
   unfold config_checks in H.
-  apply andthen_panic in H as [H|[_ H]]; [exact (global_checks_not_panic _ Hg H)|].
-  assert (Hg0 : Nat.eqb (g_http (default default_global (d_global d))) 0 = false).
-  { unfold global_deref_free in Hg. apply andb_true_iff in Hg as [Hg _]. apply negb_true_iff in Hg. exact Hg. }
-  apply andthen_panic in H as [H|[_ H]]; [exact (receivers_check_not_panic _ _ _ Hg0 H)|].
+  apply andthen_panic in H as [H|[_ H]]; [exact (global_checks_not_panic _ H)|].
+  apply andthen_panic in H as [H|[_ H]]; [exact (receivers_check_not_panic _ _ _ (restore_http_nonzero _) H)|].
   destruct (d_route d) as [r|] eqn:Hr; [|discriminate].
   pose proof (hooks_route_ok _ _ _ Hh Hr) as Hrh.
   repeat (apply andthen_panic in H as [H|[_ H]]; [exact (fail_if_not_panic _ _ H)|]).
@@ -374,8 +368,16 @@ Proof.
   apply andthen_panic in H as [H|[_ H]]; [exact (fail_if_not_panic _ _ H)|discriminate].
 Qed.
 
-(* a decoded tree with null items anywhere but without the three non-list nil shapes never panics:
-   in particular null children of routes, null receivers, null integration items, null intervals *)
+(* the hook that the fix of F4 added is what protects the dereferencing walks: without the null-item check the
+   walk over [routes: [null]] panics *)
+Lemma null_child_deref_panics names r : existsb is_none (dr_routes r) = true -> (forall c, Some c ∈ dr_routes r -> walk Panic (recv_leaf names) c = Ok tt) -> check_recv names r = Panic.
+Proof.
+  unfold check_recv. rewrite walk_unfold. generalize (dr_routes r) as l.
+  induction l as [|o t IH]; simpl; intros H Hk; [discriminate|].
+  destruct o as [c|]; simpl in *; [|reflexivity].
+  rewrite (Hk c (elem_of_list_here _ _)). simpl. apply IH; [exact H|].
+  intros c0 Hc0. apply Hk. right. exact Hc0.
+Qed.
 
 (* ---------- secrets ---------- *)
 Lemma value_ind' (P : value -> Prop)
